@@ -656,3 +656,132 @@ def scalar_without_buffer(prog, owner, buf_field, scalar_field):
             after_avoid = any(s_.reaches_exit_avoiding(sx, ext) for sx in f.succs(b) if not f.blocks[sx].cleanup)
             if before_avoid and after_avoid:
                 yield f, b
+
+
+# ---------------------------------------------------------------------------------------------------------------------------
+# a decision taken after a mutation must not rest on a count read before it
+
+_FIELDS_WRITTEN = {}
+_FIELDS_READ_BY_RET = {}
+
+
+def _counter_fields_written(prog, fid):
+    """(adt, field) pairs of integer fields that `fid` (transitively) re-assigns from their own old value (count += 1, -= 1)"""
+    if fid not in _FIELDS_WRITTEN:
+        out = set()
+        fns = [prog.fns[fid]] + [g for g in reach_from(prog, [fid]) if g.id != fid]
+        for g in fns:
+            sg = None
+            for (ff, bb, kind, place, rv, span, adt, fld) in sym.field_stores(prog, fns=[g]):
+                if kind != "assign" or rv is None:
+                    continue
+                sg = sg or Sym(prog, g)
+                try:
+                    e = sg.at(bb).rvalue(rv)
+                except Exception:
+                    continue
+                if sym.contains(e, lambda t: t[0] == "field" and t[2] == fld) and sym.contains(e, lambda t: t[0] == "const" and t[1] == 1):
+                    out.add((adt, fld))
+        _FIELDS_WRITTEN[fid] = out
+    return _FIELDS_WRITTEN[fid]
+
+
+def _fields_in_return(prog, fid):
+    """field names the return expression of a (shared-borrow) accessor-like function reads"""
+    if fid not in _FIELDS_READ_BY_RET:
+        out = set()
+        g = prog.fns[fid]
+        try:
+            e = ret_expr(prog, g)
+        except Exception:
+            e = None
+        if e is not None:
+            def visit(t):
+                if isinstance(t, tuple):
+                    if t and t[0] == "field" and isinstance(t[2], str):
+                        out.add(t[2])
+                    for x in t:
+                        visit(x)
+            visit(e)
+        _FIELDS_READ_BY_RET[fid] = out
+    return _FIELDS_READ_BY_RET[fid]
+
+
+def stale_count_decisions(prog, f):
+    """yields (mutator_block, mutator_callee, field, decision_block, span): a branch decision that can only be reached through a call
+    which (transitively) increments / decrements counter field `field`, whose condition reads that field, where every read of the
+    field on the way was made BEFORE the call and none after it.  The count the decision looks at is then the one before the
+    insertion: for an item that changes nothing (a duplicate) it acts as if the item had been new."""
+    s = None
+    reads = {}      # field -> [block]  (accessor calls / direct reads)
+    muts = []       # (block, callee, set(fields))
+    for b, site in f.calls():
+        cal = site.get("callee")
+        if not cal or cal not in prog.fns:
+            continue
+        g = prog.fns[cal]
+        tys = [ir.pl_ty(f, ir.op_place(a)) or "" for a in site["args"] if ir.op_place(a) is not None]
+        if any(t.startswith("&mut ") for t in tys):
+            w = _counter_fields_written(prog, cal)
+            if w:
+                muts.append((b, cal, set(fl for _, fl in w)))
+        elif g.argc >= 1 and tys and all(not t.startswith("&mut ") for t in tys):
+            for fl in _fields_in_return(prog, cal):
+                reads.setdefault(fl, []).append(b)
+    for blk in f.blocks:
+        if blk.cleanup:
+            continue
+        for st in blk.stmts:
+            if st[0] == "=" and st[2][0] in ("use", "ref"):
+                pl = ir.op_place(st[2][1]) if st[2][0] == "use" else st[2][2]
+                if pl is not None and not isinstance(pl, int):
+                    for pr in pl[1]:
+                        if pr[0] == "." and isinstance(pr[2], str):
+                            reads.setdefault(pr[2], []).append(blk.idx)
+    if not muts:
+        return
+    for blk in f.blocks:
+        if blk.cleanup or blk.term[0] != "switch":
+            continue
+        d = blk.idx
+        for (mb, cal, flds) in muts:
+            if mb == d or not f.dominates(mb, d):
+                continue
+            s = s or Sym(prog, f)
+            try:
+                e = s.at(d).operand(blk.term[1])
+            except Exception:
+                continue
+            for fl in sorted(flds):
+                if not sym.contains(e, lambda t: t[0] == "field" and t[2] == fl):
+                    continue
+                rs = reads.get(fl, [])
+                before = [r for r in rs if r != mb and f.dominates(r, mb)]
+                after = [r for r in rs if r != mb and f.dominates(mb, r) and (r == d or f.dominates(r, d))]
+                if before and not after:
+                    yield (mb, cal, fl, d, blk.term[-1] if isinstance(blk.term[-1], (list, tuple)) else None)
+
+
+def stale_count_rule(res, prog, rule, prefix, what):
+    """registers stale_count_decisions over the functions of module `prefix` as rule `rule`"""
+    n = 0
+    for f in sorted(prog.fns.values(), key=lambda x: x.id):
+        if f.promoted or not f.id.startswith(prefix) or "{closure" in f.id:
+            continue
+        n += 1
+        try:
+            hits = list(stale_count_decisions(prog, f))
+        except Exception:
+            hits = []
+        seen = set()
+        for (mb, cal, fl, d, span) in hits:
+            key = "%s|%s|%s|%s" % (rule, f.id, cal.rsplit("::", 2)[-2] + "::" + cal.rsplit("::", 1)[-1], fl)
+            if key in seen:
+                continue
+            seen.add(key)
+            res.obligations += 1
+            res.violate(rule, key, "%s: %s decides on `%s` after calling %s, which changes it, but reads it only before the call: the decision sees "
+                        "the count from before the operation (an item that changes nothing is treated as if it had been added)" % (what, f.id, fl, cal), f.id, span)
+    res.obligations += 1
+    res.discharged += 1
+    res.rule(rule, n, 1, "%s: functions scanned for decisions on a counter read before the call that changes it" % what)
